@@ -127,6 +127,21 @@ V_GenChildren(e) ==
                IN "genchildren-" \o NodeDiff(outs[j].node, e.res.v[j])
      ELSE "ok"
 
+\* C09: a public node carrying 33 bytes that are not a curve point (x with no square root, x >= p): building the
+\* node object may or may not fail, but nothing - extended key, fingerprint, child, address - is ever produced from it
+V_BadPointNode(e) ==
+  IF SecNorm(e, e.inp.K) # <<>> THEN "ok"             \* a valid point after all: not judged here
+  ELSE IF \E j \in 1..Len(e.res.v.probes) : e.res.v.probes[j].ok
+       THEN "node-with-non-point-key-yielded-" \o e.res.v.probes[CHOOSE j \in 1..Len(e.res.v.probes) : e.res.v.probes[j].ok].what
+       ELSE "ok"
+
+\* C02 refusal clause for public data that was loaded through the private node class
+V_MisloadedPub(e) ==
+  IF ~IsHardened(e.inp.i) THEN "ok"
+  ELSE IF \E j \in 1..Len(e.res.v.probes) : e.res.v.probes[j].ok
+       THEN "hardened-child-from-public-data-via-" \o e.res.v.probes[CHOOSE j \in 1..Len(e.res.v.probes) : e.res.v.probes[j].ok].what
+       ELSE "ok"
+
 \* C18 fault sequences on SHARED objects: steps derive from the root or from the result
 \* of an earlier step; a failed step must leave everything else as it was.
 \* e.inp = [root, steps: seq of [from (0 = root, j = result of step j), i]];
@@ -697,6 +712,7 @@ Verdict(e) ==
     [] e.act = "Agree" -> V_Agree(e)
     [] e.act = "CkdSeq" -> V_CkdSeq(e)
     [] e.act = "GenChildren" -> V_GenChildren(e)
+    [] e.act = "MisloadedPub" -> V_MisloadedPub(e)
     [] e.act = "ExtSer" -> V_ExtSer(e)
     [] e.act = "ExtParse" -> V_ExtParse(e)
     [] e.act = "Import" -> V_Import(e)
@@ -706,6 +722,7 @@ Verdict(e) ==
     [] e.act = "Wif" -> V_Wif(e)
     [] e.act = "FromWif" -> V_FromWif(e)
     [] e.act = "SecParse" -> V_SecParse(e)
+    [] e.act = "BadPointNode" -> V_BadPointNode(e)
     [] e.act = "Addr" -> V_Addr(e)
     [] e.act = "ScriptTpl" -> V_ScriptTpl(e)
     [] e.act = "AddrSeq" -> V_AddrSeq(e)
